@@ -477,8 +477,8 @@ def fixed_width_record_scenarios(ctx, home):
         old, new = pkgs(fo, fn)
         _evolve_pair(ctx, home, "fixed-width", "fixed-width record", name, old, new)
     # an unchanged generic record of fixed-width fields instantiated with an alias whose primitive type changed, and with a changed record
-    def gen(num_t, rec_fields, versions, d):
-        return Pkg("Evo", [Rec("Pair", [("a", TP("T")), ("b", TP("T"))], ("T",)), Al("MyNum", P(num_t)), Rec("Inner", rec_fields),
+    def gen(num_t, rec_fields, versions, d, pair_fields=(("a", TP("T")), ("b", TP("T")))):
+        return Pkg("Evo", [Rec("Pair", list(pair_fields), ("T",)), Al("MyNum", P(num_t)), Rec("Inner", rec_fields),
                            Proto("Evo", [("p", N("Pair", (N("MyNum"),))), ("pts", V(N("Pair", (N("MyNum"),)))), ("fixed", V(N("Pair", (N("MyNum"),)), 3)), ("s", S(N("Pair", (N("MyNum"),)))),
                                          ("pi", V(N("Pair", (N("Inner"),)))), ("end", P("int32"))])], [], versions, d)
     fi = [("x", P("float32")), ("y", P("float32"))]
@@ -487,9 +487,24 @@ def fixed_width_record_scenarios(ctx, home):
               "argument-record-changed": (gen("float32", fi, [], "v0"), lambda o: gen("float32", fi + [("z", P("float32"))], [("v0", o)], "v1"))}
     for name, (old, mk_new) in gcases.items():
         _evolve_pair(ctx, home, "generic-instance", "unchanged generic record instantiated with a changed type", name, old, mk_new(old))
+    # the generic record itself changed (a field added / removed / reordered); its instances with fixed-width arguments travel in vectors and batches
+    three = (("a", TP("T")), ("b", TP("T")), ("c", TP("T")))
+    rcases = {"generic-field-added": (gen("float64", fi, [], "v0"), lambda o: gen("float64", fi, [("v0", o)], "v1", three)),
+              "generic-field-removed": (gen("float32", fi, [], "v0", three), lambda o: gen("float32", fi, [("v0", o)], "v1")),
+              "generic-fields-reordered": (gen("float64", fi, [], "v0"), lambda o: gen("float64", fi, [("v0", o)], "v1", (("b", TP("T")), ("a", TP("T")))))}
+    for name, (old, mk_new) in rcases.items():
+        _evolve_pair(ctx, home, "generic-changed", "generic record of fixed-width fields that changed since v0", name, old, mk_new(old))
+    # two listed versions with the same schema (the release in between did not touch this protocol), the current one differs: both labels can be targeted
+    for name, (fo, fn) in list(cases.items())[:2]:
+        old, _ = pkgs(fo, fn)
+        old2 = copy.deepcopy(old)
+        old2.dirname = "v0b"
+        for order in ((("v0", old), ("v1", old2)), (("v1", old2), ("v0", old))):
+            new = Pkg("Evo", pkgs(fo, fn)[1].defs, [], list(order), "v2")
+            _evolve_pair(ctx, home, "two-equal-versions", "two listed versions with the same schema", "%s-%s-first" % (name, order[0][0]), old, new, write_labels=("v0", "v1"))
 
 
-def _evolve_pair(ctx, home, tag, what, name, old, new):
+def _evolve_pair(ctx, home, tag, what, name, old, new, write_labels=("v0",)):
     """generates `new` (which lists `old` as v0) and `old` alone, reads v0 streams with the newest reader (batch capacities 1 and 4) and writes v0
     with the newest writer; values against the documented conversion"""
     if True:
@@ -534,11 +549,11 @@ def _evolve_pair(ctx, home, tag, what, name, old, new):
             except OutOfRange:
                 continue
             datan = cn.encode_stream(pn, sch_new, vn)
-            for bufs in (None, "4"):
-                pr = cxx.run_driver(exe_new, ["Evo", "bin", "bin", "--version", "v0"] + (["--bufs", bufs] if bufs else []), datan, "plain")
+            for bufs, label in [(b, l) for l in write_labels for b in (None, "4")]:
+                pr = cxx.run_driver(exe_new, ["Evo", "bin", "bin", "--version", label] + (["--bufs", bufs] if bufs else []), datan, "plain")
                 ctx.ev()
                 ctx.count(tag + ".write-old")
-                if judge(ctx, co, po, want_o, pr, sch_old, what + ", %s: newest writer targeting v0 (batch capacity %s)" % (name, bufs or 1), {"case_dir": base}, "write-old", alternatives=True):
+                if judge(ctx, co, po, want_o, pr, sch_old, what + ", %s: newest writer targeting %s (batch capacity %s)" % (name, label, bufs or 1), {"case_dir": base}, "write-old", alternatives=True):
                     pr2 = cxx.run_driver(exe_old, ["Evo", "bin", "bin"], pr.out, "plain")
                     ctx.ev()
                     if not judge(ctx, co, po, want_o, pr2, sch_old, what + ", %s: v0's own reader on the newest writer's output" % name, {"case_dir": base}, "old-reader", alternatives=True):
